@@ -23,11 +23,7 @@ GROUPS: dict[str, list[tuple[str, str]]] = {
                                                    "compile_to_dict_function", "CompiledExpression")],
     "jacobian": [("core/compiler.py", n) for n in ("compile_gradient", "_compile_vectorized_power_gradient",
                                                     "_compile_vectorized_unary_gradient")]
-                + [("core/autodiff.py", n) for n in ("compute_jacobian", "compile_jacobian", "_is_scaled_variable_pattern")]
-                + [("core/vectors.py", f"{c}.jacobian_row") for c in ("VectorSum", "VectorExpressionSum", "DotProduct",
-                                                                       "LinearCombination", "VectorPowerSum", "VectorUnarySum")]
-                + [("core/matrices.py", f"{c}.jacobian_row") for c in ("MatrixSum", "QuadraticForm")]
-                + [("core/expressions.py", "Expression.jacobian_row")],
+                + [("core/autodiff.py", n) for n in ("compute_jacobian", "compile_jacobian", "_is_scaled_variable_pattern")],
     "hessian": [("core/autodiff.py", "compute_hessian"), ("core/autodiff.py", "compile_hessian")],
     "degree": [("analysis.py", n) for n in ("compute_degree", "_estimate_tree_depth", "_compute_degree_cached", "is_linear",
                                              "is_quadratic")]
